@@ -9,8 +9,7 @@ CL = 'rnacos::config::core::ConfigListener::'
 SB = 'rnacos::config::config_subscribe::Subscriber::'
 CMD_H = '<rnacos::config::core::ConfigActor as actix::Handler<rnacos::config::core::ConfigCmd>>::handle'
 
-EXC = {CA + 'inner_set_config': 'full-value import / snapshot load: outside the statement\'s "publish or remove"',
-       CA + 'set_tmp_config': 'temporary value on a follower; the replicated publish notifies when it arrives (tmp forces the changed path)'}
+EXC = {CA + 'set_tmp_config': 'temporary value on a follower; the replicated publish notifies when it arrives (tmp forces the changed path)'}
 
 
 def run(ck, fb):
@@ -58,9 +57,32 @@ def r10a(ck, fb):
         for s in ln + sn:
             t = Taint(b, place_src=field_place_src('key'), local_src=[l for l in range(1, b.argc + 1) if b.local_name(l) == 'key'])
             ck.require(t.op_tainted(s.args[1]), 'R10a', '%s:notify-key' % fn.split('::')[-1], s.where(), 'notify is not given the changed key')
+    # the full-value path (a committed data import, every record of a snapshot installed on a running follower) replaces served content too:
+    # the only way around the two notifications is a decision that compares the stored md5 with the new one
+    b = ck.body(CA + 'inner_set_config', 'R10a')
+    if b:
+        ln = util.mut_calls_on_field(b, 'listener', re.escape(CL + 'notify') + '$', deep=1)
+        sn = util.mut_calls_on_field(b, 'subscriber', re.escape(SB + 'notify') + '$', deep=1)
+        ins = [s0 for s0 in b.calls(r'HashMap::<K, V, S, A>::insert$') if util.recv_fields(b, s0)[-1:] == ['cache']]
+        ck.floor('R10a', 'mutation sites in inner_set_config', len(ins), 1)
+        md5 = Taint(b, place_src=field_place_src('md5'))
+        same = set()
+        for i, blk in enumerate(b.blocks):
+            t = blk['t']
+            if t['k'] == 'switch' and md5.op_tainted(t['discr']):
+                same.add(i)
+        for s0 in ins:
+            nxt = b.blocks[s0.bb]['t']['t']
+            for what, ns in (('listener', ln), ('subscriber', sn)):
+                ok = bool(ns) and cfg.must_pass_before_return(b, nxt, {x.bb for x in ns} | same)
+                ck.require(ok, 'R10a', 'inner_set_config:insert->%s.notify' % what, s0.where(),
+                           'a full value (committed data import, record of a snapshot installed on a running follower) replaces the served content '
+                           'without %s.notify: a %s holding the previous md5 keeps waiting although the key changed' % (
+                               what, 'long-poll' if what == 'listener' else 'gRPC subscriber'),
+                           'notified unless the md5 comparison says unchanged')
     # every other ConfigActor function that mutates cache is a listed exception
     for b in fb.find('^' + re.escape(CA)):
-        if b.parent or b.name in (CA + 'set_config', CA + 'del_config'):
+        if b.parent or b.name in (CA + 'set_config', CA + 'del_config', CA + 'inner_set_config'):
             continue
         m = util.mut_calls_on_field(b, 'cache', r'HashMap::<K, V, S, A>::(insert|remove|get_mut|clear)$')
         if m:
